@@ -481,8 +481,9 @@ struct Ser {
         }
         if (auto const* x = dyn_cast<ArraySubscriptExpr>(e)) {
             o["k"] = "idx";
-            o["b"] = expr(x->getBase());
-            o["i"] = expr(x->getIdx());
+            // syntactic order: getBase()/getIdx() guess from the types and swap the operands of a dependent `a[i]`
+            o["b"] = expr(x->getLHS());
+            o["i"] = expr(x->getRHS());
             return json::Value(std::move(o));
         }
         if (auto const* x = dyn_cast<IntegerLiteral>(e)) {
